@@ -279,11 +279,14 @@ class LibMixin:
             r = self.uf("str_" + name, [s], STR)
             if name in ("lower", "upper"):
                 st.assume(smt.Eq(smt.Eq(r, smt.Str("")), smt.Eq(s, smt.Str(""))))
-                st.assume(smt.Eq(self.uf("str_" + name, [r], STR), r))      # idempotent [A, validated on CPython]
-                # case mapping neither creates nor removes these punctuation characters [A, validated on CPython]
-                for ch in ("'", '"'):
-                    st.assume(smt.Eq(smt.Contains(r, smt.Str(ch)), smt.Contains(s, smt.Str(ch))))
-                self.assumptions_used.add("str.%s keeps the quote characters ' and \" (neither creates nor removes them)" % name)
+                if "case_idempotent" in self.contract.str_axioms:
+                    st.assume(smt.Eq(self.uf("str_" + name, [r], STR), r))      # [A, validated on CPython]
+                    self.assumptions_used.add("str.%s is idempotent" % name)
+                if "case_keeps_quotes" in self.contract.str_axioms:
+                    # case mapping neither creates nor removes quote characters [A, validated on CPython]
+                    for ch in ("'", '"'):
+                        st.assume(smt.Eq(smt.Contains(r, smt.Str(ch)), smt.Contains(s, smt.Str(ch))))
+                    self.assumptions_used.add("str.%s neither creates nor removes the quote characters" % name)
             return mk_str(r)
         if name in ("isdigit", "isalnum", "isspace", "isalpha", "isupper", "islower", "isidentifier"):
             return mk_bool(self.truthy(SV(TANY, [self.uf("str_" + name, [s], U)])))
@@ -454,7 +457,24 @@ class LibMixin:
             v = self.coerce(v, recv.ty, st)
             self.assign_to(recv_ast, SV(recv.ty, [smt.Concat(a, b) for a, b in zip(recv.ts, v.ts)]), st, exc)
             return [(st, NONE)]
-        if name == "index" or name == "count" or name == "remove":
+        if name == "remove":
+            if unknown or len(recv.ts) != 1:
+                raise Unsupported("list.remove on %r" % (recv.ty,))
+            x = self.coerce(pos[0], recv.ty.args[0], st).ts[0]
+            c = recv.ts[0]
+            n = smt.Len(c)
+            self.require_noexc(st, smt.Contains(c, smt.Unit(x)), "ValueError", "remove_absent", exc)
+            j = self.ctx.fresh("inst_j", INT)        # position of the first occurrence
+            iv = T("i!rm", INT)
+            st.assume(smt.And(smt.Le(smt.Int(0), j), smt.Lt(j, n), smt.Eq(smt.At(c, j), x)))
+            inner = smt.Implies(smt.And(smt.Le(smt.Int(0), iv), smt.Lt(iv, j)), smt.Not(smt.Eq(smt.At(c, iv), x)))
+            q = smt.Forall([("i!rm", INT)], inner)
+            self.ctx.qreg[q.s] = ("i!rm", inner.s)
+            st.assume(q)
+            new = smt.Concat(smt.Substr(c, smt.Int(0), j), smt.Substr(c, smt.Add(j, smt.Int(1)), smt.Sub(n, smt.Add(j, smt.Int(1)))))
+            self.assign_to(recv_ast, SV(recv.ty, [new]), st, exc)
+            return [(st, NONE)]
+        if name == "index" or name == "count":
             raise Unsupported("list.%s" % name)
         raise Unsupported("list method %s" % name)
 
